@@ -105,6 +105,27 @@ static std::string run(Inner inner, Outer outer, const dyn_t<ll>& a, const dyn_t
         na::eval(lz, nm::None, out2);
         s += " | sup2 " + show(out2);
     }
+    {   // caller-supplied outputs of OTHER container kinds, right shape, sentinel-filled: nested std::vector (whose member size()
+        // is the outer extent only) for 2-d / 3-d results, a flat std::vector for 1-d results
+        auto shp_ = nm::shape(lz); size_t d = (size_t)nm::len(shp_);
+        std::vector<size_t> e; for (size_t i = 0; i < d; i++) e.push_back((size_t)nm::at(shp_, i));
+        std::string o = " | sup3 ";
+        bool empty = false; for (auto x : e) if (x == 0) empty = true;      // a nested vector with no rows has no shape of its own
+        if (empty) o += "-";
+        else if (d == 1) {
+            std::vector<ll> v(e[0], -99); na::eval(lz, nm::None, v);
+            o += "ok " + std::to_string(e[0]) + " ;"; for (size_t i = 0; i < e[0]; i++) o += (i ? "," : " ") + num_str(v[i]);
+        } else if (d == 2) {
+            std::vector<std::vector<ll>> v(e[0], std::vector<ll>(e[1], -99)); na::eval(lz, nm::None, v);
+            o += "ok " + std::to_string(e[0]) + "," + std::to_string(e[1]) + " ;"; bool f = true;
+            for (auto& r : v) for (auto x : r) { o += (f ? " " : ",") + num_str(x); f = false; }
+        } else if (d == 3) {
+            std::vector<std::vector<std::vector<ll>>> v(e[0], std::vector<std::vector<ll>>(e[1], std::vector<ll>(e[2], -99))); na::eval(lz, nm::None, v);
+            o += "ok " + std::to_string(e[0]) + "," + std::to_string(e[1]) + "," + std::to_string(e[2]) + " ;"; bool f = true;
+            for (auto& p : v) for (auto& r : p) for (auto x : r) { o += (f ? " " : ",") + num_str(x); f = false; }
+        } else o += "-";
+        s += o;
+    }
     return s;
 }
 
